@@ -1867,6 +1867,10 @@ class Identifier(str):
     def __hash__(self) -> int:
         return super().__hash__()
 
+    def __getnewargs_ex__(self) -> tuple[tuple[str], dict[str, object]]:
+        # Support pickling. `token` is a required keyword argument of `__new__`.
+        return (str(self),), {"token": self.token}
+
 
 def parse_identifier(token: TokenT) -> Identifier:
     """Parse _token_ as an identifier."""
